@@ -92,17 +92,18 @@ func bcp47ToOtf(tag language.Tag) (otfScript, otfLang, error) {
 		scriptTag, _ := tag.Script()
 		bcpScript := scriptTag.String()
 
+		// Several OpenType tags share one BCP 47 value ("nl" is both "FLE " and
+		// "NLD ", "Beng" is both "beng" and "bng2").  Take the smallest such
+		// tag, so that the answer does not depend on the map iteration order.
 		for key, val := range langBcp47 {
-			if val == bcpLang {
+			if val == bcpLang && (lang == "" || string(key) < lang) {
 				lang = string(key)
-				break
 			}
 		}
 
 		for key, val := range scriptBcp47 {
-			if val == bcpScript {
+			if val == bcpScript && (script == "" || string(key) < script) {
 				script = string(key)
-				break
 			}
 		}
 	}
